@@ -396,7 +396,17 @@ impl<'a, 'b> TypeGen<'a, 'b> {
                     self.push_decl(format!("type {name} = {{ k: {inner}; \"o-2\"?: number }};"));
                 }
                 self.label("indexed-access");
-                format!("{name}[\"k\"]")
+                match self.c.pick(4) {
+                    0 => {
+                        // nested access through a wrapper (different keys at the two levels)
+                        let w = self.fresh("Wrap");
+                        self.push_decl(format!("type {w} = {{ outer: {name}; k: {{ outer: 1 }} }};"));
+                        self.label("nested-indexed-access");
+                        format!("{w}[\"outer\"][\"k\"]")
+                    }
+                    1 => format!("{name}[(\"k\")]"),
+                    _ => format!("{name}[\"k\"]"),
+                }
             }
         }
     }
